@@ -469,6 +469,70 @@ func c08Conservation(r *verdict.Run, e *emu, kind string, nconn, nops int, rng *
 		if h.Text() != strconv.Itoa(nconn*nops) {
 			bad("hincrby/lost-update", fmt.Sprintf("HINCRBY x %d but the field is %s", nconn*nops, h), nil)
 		}
+	case "multidb":
+		// every database has its own lock, so commands on different databases really run at the same time: whatever the
+		// code shares between databases (hashing, id counters, tables of the set of data stores) is exercised only here.
+		// Each connection works in database c%4 on that database's counter, set, list and hash; per database the INCR
+		// replies must be a permutation of 1..N, nothing may be lost and the database must hold exactly its four keys.
+		const ndb = 4
+		longKey := "counter-with-a-name-that-is-much-longer-than-one-hash-block-" + strings.Repeat("k", 96)
+		var perDb [ndb]int64
+		var replyMu sync.Mutex
+		replies := [ndb]map[int64]int{}
+		for d := range replies {
+			replies[d] = map[int64]int{}
+		}
+		for c := 0; c < nconn; c++ {
+			wg.Add(1)
+			go worker(c, func(cn *wire.Conn, i int) bool {
+				d := c % ndb
+				if i == 0 {
+					if v, err := cn.Do("SELECT", strconv.Itoa(d)); err != nil || v.Text() != "OK" {
+						return false
+					}
+				}
+				vs, err := cn.Pipeline([][]string{{"INCR", longKey}, {"SADD", "members", fmt.Sprintf("m-%d-%d", c, i)},
+					{"RPUSH", "queue", fmt.Sprintf("e-%d-%d", c, i)}, {"HINCRBY", "h", "n", "2"}})
+				if err != nil || len(vs) != 4 || vs[0].Kind != ':' {
+					bad("multidb/bad-reply", fmt.Sprintf("%v %v", err, vs), nil)
+					return false
+				}
+				replyMu.Lock()
+				replies[d][vs[0].Int]++
+				replyMu.Unlock()
+				if vs[1].Int != 1 {
+					bad("multidb/sadd-of-a-new-member-not-counted", fmt.Sprintf("SADD members m-%d-%d in database %d replied %s", c, i, d, vs[1]), nil)
+				}
+				atomic.AddInt64(&perDb[d], 1)
+				return true
+			})
+		}
+		wg.Wait()
+		for d := 0; d < ndb; d++ {
+			n := atomic.LoadInt64(&perDb[d])
+			if n == 0 {
+				continue
+			}
+			fin.Do("SELECT", strconv.Itoa(d))
+			vs, err := fin.Pipeline([][]string{{"GET", longKey}, {"SCARD", "members"}, {"LLEN", "queue"}, {"HGET", "h", "n"}, {"DBSIZE"}})
+			if err != nil || len(vs) != 5 {
+				r.Inconclusive("infra: final reads of database " + strconv.Itoa(d))
+				continue
+			}
+			if vs[0].Text() != strconv.FormatInt(n, 10) || vs[1].Int != n || vs[2].Int != n || vs[3].Text() != strconv.FormatInt(2*n, 10) {
+				bad("multidb/lost-update", fmt.Sprintf("database %d: %d rounds of INCR/SADD/RPUSH/HINCRBY 2 but counter=%s SCARD=%s LLEN=%s h.n=%s", d, n, vs[0], vs[1], vs[2], vs[3]), nil)
+			}
+			if vs[4].Int != 4 {
+				bad("multidb/keyspace-size", fmt.Sprintf("database %d holds exactly 4 keys but DBSIZE = %s", d, vs[4]), nil)
+			}
+			for k := int64(1); k <= n; k++ {
+				if replies[d][k] != 1 {
+					bad("multidb/incr-replies-not-a-permutation", fmt.Sprintf("database %d: %d INCRs, reply %d was given %d times", d, n, k, replies[d][k]), nil)
+					break
+				}
+			}
+		}
+		fin.Do("SELECT", "0")
 	case "append":
 		for c := 0; c < nconn; c++ {
 			wg.Add(1)
@@ -914,7 +978,7 @@ func c08Run(r *verdict.Run, race bool, nhist, ncons int, tag string) {
 	st := &linStats{}
 	perChild := 25
 	nsh := (nhist + perChild - 1) / perChild
-	kinds := []string{"incr", "append", "list", "sets", "mset", "rename", "bigviews"}
+	kinds := []string{"incr", "append", "list", "sets", "mset", "rename", "bigviews", "multidb"}
 	var raceMu sync.Mutex
 	raceSeen := map[string]string{}
 	parallel(nsh+ncons, 12, func(shard int) {
@@ -999,10 +1063,10 @@ func c08Run(r *verdict.Run, race bool, nhist, ncons int, tag string) {
 
 func checkC08(r *verdict.Run) {
 	r.Rule = "(1) many small concurrent histories (3-6 connections x 5-10 operations on 1-3 disjoint key groups; single-key read-modify-write and multi-key commands, FLUSHDB/FLUSHALL [ASYNC|SYNC] in single-group histories; unique written values) recorded at the client boundary with one monotonic clock and checked for linearizability with porcupine against the reference model (partitioned by key group; a final single-client read of every key is part of the history); " +
-		"(2) conservation runs: N x M INCR/DECR/HINCRBY sums, APPEND tokens, unique list ids pushed/popped/moved (exactly once), SMOVE between two sets under SINTERCARD/SUNION observers, MSET tag vectors under MGET observers, MSETNX/DEL all-or-nothing, RENAME ping-pong under EXISTS observers, and atomic views of large values (two distant bytes of a 1 MiB string written by one BITFIELD, a 256 KiB value overwritten by one SETRANGE, 300 hash fields set by one HSET, a 1500-element list that is only rotated, 200 keys written by one MSET and removed by one UNLINK/DEL, 300 members added by one SADD and removed by one SREM) under BITCOUNT/BITFIELD_RO/GET/HVALS/LRANGE/EXISTS/SCARD observers; yields are injected before/after the data store lock. distinct = overlapping command pairs actually observed + conservation kinds"
-	c08Run(r, false, tierPick(r, 300, 10000), tierPick(r, 7, 63), "plain")
+		"(2) conservation runs: N x M INCR/DECR/HINCRBY sums, APPEND tokens, unique list ids pushed/popped/moved (exactly once), SMOVE between two sets under SINTERCARD/SUNION observers, MSET tag vectors under MGET observers, MSETNX/DEL all-or-nothing, RENAME ping-pong under EXISTS observers, and atomic views of large values (two distant bytes of a 1 MiB string written by one BITFIELD, a 256 KiB value overwritten by one SETRANGE, 300 hash fields set by one HSET, a 1500-element list that is only rotated, 200 keys written by one MSET and removed by one UNLINK/DEL, 300 members added by one SADD and removed by one SREM) under BITCOUNT/BITFIELD_RO/GET/HVALS/LRANGE/EXISTS/SCARD observers, and the same counters/sets/lists/hashes in four databases at once (per database: INCR replies a permutation of 1..N, nothing lost, DBSIZE exact; this is the only place where commands really run in parallel, one lock per database); yields are injected before/after the data store lock. distinct = overlapping command pairs actually observed + conservation kinds"
+	c08Run(r, false, tierPick(r, 300, 10000), tierPick(r, 8, 64), "plain")
 	if r.Tier == "thorough" {
-		c08Run(r, true, 300, 12, "race-build")
+		c08Run(r, true, 300, 16, "race-build")
 	}
 	r.Assume("porcupine v1.3.0 decides the recorded histories; the sequential specification is the reference model; a checker timeout (20 s) makes a history inconclusive, never a violation")
 }
